@@ -12,7 +12,8 @@
    message (canonical encoding); [ed_abs] = what the accessors of the dump read back. *)
 From LibcoapV Require Import Base.Tactics Base.Bytes Wire.OptCodec Wire.OptCodecProofs Wire.Pdu
   Wire.PduProofs Wire.Build Edit.EdSpec Edit.EdBytes Edit.EdSpecProofs Edit.EdPatch
-  Edit.EdBytesProofs Edit.EdStart Edit.EdDup Edit.EdBuild Edit.EdResize Edit.EdRefuted Edit.EdExample.
+  Edit.EdBytesProofs Edit.EdStart Edit.EdDup Edit.EdBuild Edit.EdResize Edit.EdHeader Edit.EdRefuted
+  Edit.EdExample.
 Local Open Scope Z_scope.
 
 (* ---- refinement: bytes vs. abstract message ---- *)
@@ -219,6 +220,28 @@ Theorem C04_update_token_cast8_refuted :
               ~ ed_refines_step ed_b_token_cast8 q t.
 Proof. exact ed_token_cast8_refuted. Qed.
 Print Assumptions C04_update_token_cast8_refuted.
+
+(* second defect found: on a PDU with a session and an encoded header, coap_update_token must leave
+   the header in memory in step with the new token (retransmission sends it as it is).  Repaired
+   code: *)
+Theorem C04_token_header_in_step : forall q t,
+  ed_pwf q ->
+  ed_b_token_hdr UDP (header UDP (p_msg q)) (ed_of_pdu q) t =
+  Some (fst (ed_token q t), ed_of_pdu (snd (ed_token q t)),
+        header UDP (p_msg (snd (ed_token q t)))).
+Proof. exact ed_b_token_hdr_in_step. Qed.
+Print Assumptions C04_token_header_in_step.
+
+(* pinned code (no fix-up on the used_size == 0 path): stale header *)
+Theorem C04_token_header_prefix_refuted :
+  exists q t, ed_pwf q /\
+    match ed_b_token_hdr_gen false UDP (header UDP (p_msg q)) (ed_of_pdu q) t with
+    | Some (r, p', h') => r = true /\ ed_abs p' = Some (p_msg (snd (ed_token q t))) /\
+                          h' <> header UDP (p_msg (snd (ed_token q t)))
+    | None => False
+    end.
+Proof. exact ed_b_token_hdr_prefix_refuted. Qed.
+Print Assumptions C04_token_header_prefix_refuted.
 
 (* ---- non-vacuity: a concrete message and edit list meet all the hypotheses above ---- *)
 
